@@ -35,7 +35,7 @@ func (a *atomicInv) Before(m *Machine, act *Action) {
 func (a *atomicInv) PreSlash(m *Machine, act *Action, infrH int64) { a.take(m) }
 
 func (a *atomicInv) After(m *Machine, act *Action, o Outcome) error {
-	if act.Kind == "nextBlock" || act.Kind == "jail" || act.Kind == "unjail" || o.OK {
+	if act.Kind == "nextBlock" || act.Kind == "jail" || act.Kind == "unjail" || act.Kind == "evidence" || o.OK {
 		return nil
 	}
 	after := m.C.Snap(m.C.Ctx(), sim.RestakingStores...)
